@@ -45,6 +45,10 @@ class MultiMazeNavigationSim(GridWorldSimulation):
             if not move_result:
                 self.reward[agent_id] -= 0.1
 
+            # Reaching the target
+            if self.get_done(agent_id):
+                self.reward[agent_id] += 1
+
             # Entropy penalty
             self.reward[agent_id] -= 0.01
 
@@ -54,7 +58,7 @@ class MultiMazeNavigationSim(GridWorldSimulation):
         }
 
     def get_reward(self, agent_id, **kwargs):
-        reward = 1 if self.get_done(agent_id) else self.reward[agent_id]
+        reward = self.reward[agent_id]
         self.reward[agent_id] = 0
         return reward
 
